@@ -2,6 +2,7 @@ import ObiVerif.Lemmas.Header
 import ObiVerif.Lemmas.Json
 import ObiVerif.Lemmas.FastqMany
 import ObiVerif.Lemmas.HeaderRefine
+import ObiVerif.Lemmas.HeaderManyFq
 import ObiVerif.Lemmas.JsonNum
 import ObiVerif.Model.ObiHeader
 /-!
@@ -373,6 +374,67 @@ theorem fastq_refinement_needs_qual :
     readFastqS 33 [64, 97, 10, 97, 99, 10] = some ⟨[97], [], [97, 99], some []⟩ :=
   parseFastq_refines_needs_hq
 
+/-! ## (1, third pass) the structural layer is the state machines — every text, several records per text
+
+`readFastaManyS` / `readFastqManyS` (Lemmas/HeaderMany.lean, Lemmas/HeaderManyFq.lean) read a whole chunk with
+`splitTitle`, `unfold`, `takeWhile` / `dropWhile` only: title line up to the end of line, body up to the next `>`
+(FASTA) or sequence line, `+` line, quality line (FASTQ), then the next record.  They are **equal** to the byte
+machines on every text — records delivered, records dropped at the end of the text, `Fatalf` and panic included — so
+only one layer remains in the trusted reading (the machines, which the harness compares with the real parsers), and
+no buffer of the machine (`idB`, `defB`, `seqB`, `qualB`, `ident`, `defn`, `prev`) leaks from one record into the next. -/
+
+/-- **FASTA: the 7-state machine is the structural reading, for every text** (any number of records) -/
+theorem fasta_machine_is_structural (text : Bytes) : parseFasta text = readFastaManyS text :=
+  parseFasta_eq_many text
+
+/-- **FASTQ: the 12-state machine (qualities kept) is the structural reading, for every text and every offset** -/
+theorem fastq_machine_is_structural (sh : UInt8) (text : Bytes) : parseFastq sh true text = readFastqManyS sh text :=
+  parseFastq_eq_many sh text
+
+/-- the whole readers in structural terms: chunk text → records → `ParseFastSeqJsonHeader` on each -/
+theorem readFasta_structural {α : Type} (J : JsonLib α) (text : Bytes) :
+    readFasta J text = (match readFastaManyS text with
+                        | .ok rs => rs.mapM (readRec J)
+                        | .error _ => none) := by
+  unfold readFasta; rw [parseFasta_eq_many]; cases readFastaManyS text <;> rfl
+
+theorem readFastq_structural {α : Type} (J : JsonLib α) (sh : UInt8) (text : Bytes) :
+    readFastq J sh text = (match readFastqManyS sh text with
+                           | .ok rs => rs.mapM (readRec J)
+                           | .error _ => none) := by
+  unfold readFastq; rw [parseFastq_eq_many]; cases readFastqManyS sh text <;> rfl
+
+/-- transfer: what the writers print for any list of records is read back by the **structural** reading as the records
+    with their title annotations (FASTA) -/
+theorem write_read_fasta_many_structural_json (r : Record JMems) (rs : List (Record JMems))
+    (hA : ∀ x ∈ r :: rs, AnnOK x.ann) (h : ∀ x ∈ r :: rs, WF x) :
+    (match readFastaManyS ((r :: rs).map (writeFasta goJson)).flatten with
+     | .ok l => l.mapM (readRec goJson)
+     | .error _ => none) = some ((r :: rs).map (fun x => { x with qual := none })) := by
+  rw [← readFasta_structural]; exact write_read_fasta_many_json r rs hA h
+
+/-- … and FASTQ, every offset 14..172 -/
+theorem write_read_fastq_many_structural_json (sh : UInt8) (h1 : 14 ≤ sh) (h2 : sh ≤ 172) (rs : List (Record JMems))
+    (hA : ∀ x ∈ rs, AnnOK x.ann) (h : ∀ x ∈ rs, WF x)
+    (hq : ∀ x ∈ rs, (qualities x.seq x.qual).length = x.seq.length) :
+    (match readFastqManyS sh (rs.map (writeFastq goJson sh)).flatten with
+     | .ok l => l.mapM (readRec goJson)
+     | .error _ => none)
+      = some (rs.map (fun x => { x with qual := some ((qualities x.seq x.qual).map (fun q => min q 93)) })) := by
+  rw [← readFastq_structural]
+  exact write_read_fastq_many_aux goJson sh (shiftOK_range sh h1 h2) rs (fun x hx => goJson_OKat _ _ (hA x hx)) h hq
+
+/-- tests (two inputs each): `>a x⏎ac⏎>b⏎g⏎` gives two records, `>a⏎ac>b⏎g` (the `>` not at the beginning of a line)
+    is fatal; `@a x⏎Ac⏎+⏎II⏎@b⏎g⏎+⏎J` gives two records, the last one completed at the end of the text -/
+example : readFastaManyS [62, 97, 32, 120, 10, 97, 99, 10, 62, 98, 10, 103, 10]
+      = .ok [⟨[97], [120], [97, 99], none⟩, ⟨[98], [], [103], none⟩]
+    ∧ readFastaManyS [62, 97, 10, 97, 99, 62, 98, 10, 103] = .error .fatal := by
+  constructor <;> rfl
+
+example : readFastqManyS 33 [64, 97, 32, 120, 10, 65, 99, 10, 43, 10, 73, 73, 10, 64, 98, 10, 103, 10, 43, 10, 74]
+      = .ok [⟨[97], [120], [97, 99], some [40, 40]⟩, ⟨[98], [], [103], some [41]⟩] := by
+  rfl
+
 /-! ## (4) every quality offset
 
 On the command line the output offset is always 33 and the input offset 33 or 64 (`--solexa`); the setters accept any
@@ -445,6 +507,24 @@ theorem float_value_roundtrip (d : Dec) (h : d.norm = true) : Dec.ofLit (fmtFloa
 /-- **int → text → decimal value**: integral and equal to `i`, for every `i` -/
 theorem int_value_roundtrip (i : Int) : (Dec.ofLit (intLit i)).isInt = true ∧ (Dec.ofLit (intLit i)).toInt = i :=
   ofLit_intLit i
+
+/-- every `int` of the stated range `|i| ≤ 2^53` is a `float64` (53-bit significand × a power of two): the `float64`
+    the reader stores for the literal `intLit i` has exactly the value `i` (the rounding of `strconv.ParseFloat` itself
+    is outside the model; beyond 2^53 the first non-representable integer is 2^53 + 1) -/
+theorem int_in_range_is_float64 (i : Int) (h : i.natAbs ≤ 2 ^ 53) :
+    ∃ m e : Nat, m < 2 ^ 53 ∧ i.natAbs = m * 2 ^ e := by
+  by_cases h' : i.natAbs < 2 ^ 53
+  · exact ⟨i.natAbs, 0, h', by simp⟩
+  · exact ⟨2 ^ 52, 1, by decide, by omega⟩
+
+theorem int_beyond_range_not_float64 : ¬ ∃ m e : Nat, m < 2 ^ 53 ∧ 2 ^ 53 + 1 = m * 2 ^ e := by
+  rintro ⟨m, e, hm, h⟩
+  cases e with
+  | zero => rw [Nat.pow_zero, Nat.mul_one] at h; omega
+  | succ e =>
+    rw [show (2 : Nat) ^ (e + 1) = 2 ^ e * 2 from Nat.pow_succ _ _, ← Nat.mul_assoc] at h
+    generalize m * 2 ^ e = k at h
+    omega
 
 /-- the narrowing loop of `_parse_json_header_`, as it is written, is the identity -/
 theorem narrowing_asis_identity (m : GMems) : narrowAsIs m = m := narrowAsIs_id m
